@@ -18,7 +18,6 @@ package main
 
 import (
 	"crypto/sha1"
-	"encoding/json"
 	"fmt"
 	"os"
 	"sort"
@@ -620,16 +619,28 @@ func seqSearch(p *Prop, j *Job, spec *SeqSpec) *JobResult {
 		deadline = time.Now().Add(time.Duration(j.Seconds * float64(time.Second)))
 	}
 	seen := map[string]bool{}
-	type node struct{ hist []SeqEvent }
+	// a node is one explored state: the last event of its shortest history, a pointer to its
+	// parent, and the events that can follow it (histories are rebuilt by walking the parents)
+	type node struct {
+		parent *node
+		ev     SeqEvent
+		depth  int
+		cands  []SeqEvent
+	}
+	histOf := func(n *node) []SeqEvent {
+		h := make([]SeqEvent, n.depth)
+		for x := n; x != nil && x.depth > 0; x = x.parent {
+			h[x.depth-1] = x.ev
+		}
+		return h
+	}
 	root := runHistory(spec, nil)
 	if root.Outcome != vsched.Done {
 		res.Err = "initial state: " + root.Outcome.String() + " " + root.Detail
 		return res
 	}
 	seen[stateKey(spec, root)] = true
-	frontier := []node{{nil}}
-	hkey := func(h []SeqEvent) string { b, _ := json.Marshal(h); return string(b) }
-	enabledOf := map[string][]SeqEvent{hkey(nil): root.Enabled}
+	rootNode := &node{}
 	// candidate client / env events after a run: env ops always, client ops for idle clients
 	candidates := func(r *SeqRun) []SeqEvent {
 		var out []SeqEvent
@@ -660,13 +671,14 @@ func seqSearch(p *Prop, j *Job, spec *SeqSpec) *JobResult {
 		}
 		return out
 	}
-	alphaOf := map[string][]SeqEvent{hkey(nil): candidates(root)}
+	rootNode.cands = append(candidates(root), root.Enabled...)
+	frontier := []*node{rootNode}
 	seenViol := map[string]bool{}
 	depth := 0
 	res.States = 1
 	for len(frontier) > 0 && depth < spec.MaxDepth {
 		depth++
-		var next []node
+		var next []*node
 		for _, nd := range frontier {
 			if !deadline.IsZero() && time.Now().After(deadline) {
 				res.Complete, res.CapHit = false, fmt.Sprintf("deadline at depth %d", depth)
@@ -674,17 +686,12 @@ func seqSearch(p *Prop, j *Job, spec *SeqSpec) *JobResult {
 				next = nil
 				break
 			}
-			hk := hkey(nd.hist)
-			var cands []SeqEvent
-			for _, c := range alphaOf[hk] {
-				cands = append(cands, c)
-			}
-			cands = append(cands, enabledOf[hk]...)
-			delete(enabledOf, hk)
-			delete(alphaOf, hk)
+			cands := nd.cands
+			nd.cands = nil
+			base := histOf(nd)
 			for ci := 0; ci < len(cands); ci++ {
 				e := cands[ci]
-				h := append(append([]SeqEvent(nil), nd.hist...), e)
+				h := append(append([]SeqEvent(nil), base...), e)
 				// value ids: unique per history position
 				for i := range h {
 					if h[i].Op != nil && (h[i].Op.K == "set" || h[i].Op.K == "setttl") {
@@ -753,10 +760,7 @@ func seqSearch(p *Prop, j *Job, spec *SeqSpec) *JobResult {
 				if spec.Terminal != nil && spec.Terminal(run) {
 					continue
 				}
-				hk2 := hkey(h)
-				enabledOf[hk2] = run.Enabled
-				alphaOf[hk2] = candidates(run)
-				next = append(next, node{h})
+				next = append(next, &node{parent: nd, ev: h[len(h)-1], depth: len(h), cands: append(candidates(run), run.Enabled...)})
 			}
 		}
 		frontier = next
@@ -766,7 +770,7 @@ func seqSearch(p *Prop, j *Job, spec *SeqSpec) *JobResult {
 		res.CapHit = ""
 	}
 	if len(res.Sample) == 0 && len(frontier) > 0 {
-		res.Sample = []string{histString(frontier[len(frontier)/2].hist)}
+		res.Sample = []string{histString(histOf(frontier[len(frontier)/2]))}
 	}
 	res.Outcomes[fmt.Sprintf("states=%d", res.States)] = 1
 	return res
